@@ -1,7 +1,10 @@
 /-
   Model/Incent — M-Incent: x/streamer (streams, epoch pointers, paged distribution) and
   x/incentives (asset / rollapp gauges, payouts to lock owners / rollapp owner) of the Dymension hub,
-  mirroring the Go code AS IT IS (same order of checks, same rounding, same error cases).
+  mirroring the Go code AS IT IS (same order of checks, same rounding, same error cases) — with the
+  repairs fix D1 (share = amount·weight/total), D2 (streams sorted by id in Distribute) and D3 (a stream
+  starts with its own epoch; pointer reset at every epoch end; TerminateStream falls back to the
+  upcoming list) applied.
   Core Lean only.
 
   Mirrors (file: functions):
